@@ -570,11 +570,35 @@ func ruleRawReadWriters(c *Check, rule string) {
 		c.Undecided(rule, sendTxn+"/rawread", "the transaction body does not set txn.RawRead exactly once from a constant or a captured variable", c.P.Pos(cl.Pos()))
 		return
 	}
-	fn, paths := c.walkFn(rule, fnSendOnce, WalkConfig{Memo: true,
-		KeepEvent: func(e *Event) bool {
-			return e.Kind == "ret" || e.Kind == "store" && (strings.Contains(e.Addr, "RawRead") || strings.HasPrefix(src, "alloc:") && e.Addr == "&"+src) || e.Kind == "call" && strings.Contains(e.Callee, "lmdb.Env)")
-		},
-		KeepAtom: func(a Atom) bool { return false }})
+	// the mode may be a value that a branch of SendOnce tests (txnRawRead := schemaTracksChanges):
+	// conditions on the values stored into the mode variable are kept, so that a path that
+	// starts the write transaction under "!mode" is read as mode == false
+	modeVals := map[string]bool{}
+	walk := func() (*ssa.Function, []Path) {
+		return c.walkFn(rule, fnSendOnce, WalkConfig{Memo: true,
+			KeepEvent: func(e *Event) bool {
+				return e.Kind == "ret" || e.Kind == "store" && (strings.Contains(e.Addr, "RawRead") || strings.HasPrefix(src, "alloc:") && e.Addr == "&"+src) || e.Kind == "call" && strings.Contains(e.Callee, "lmdb.Env)")
+			},
+			KeepAtom: func(a Atom) bool { return a.Kind == "bool" && modeVals[a.A] }})
+	}
+	fn, paths := walk()
+	if paths == nil {
+		return
+	}
+	if !strings.HasPrefix(src, "const:") {
+		modeVals[src] = true
+	}
+	for i := range paths {
+		for j := range paths[i].Events {
+			e := &paths[i].Events[j]
+			if e.Kind == "store" && strings.HasPrefix(src, "alloc:") && e.Addr == "&"+src && !strings.HasPrefix(e.Val, "const:") {
+				modeVals[e.Val] = true
+			}
+		}
+	}
+	if len(modeVals) > 0 {
+		fn, paths = walk()
+	}
 	if paths == nil {
 		return
 	}
@@ -599,6 +623,13 @@ func ruleRawReadWriters(c *Check, rule string) {
 				continue
 			}
 			nWrite++
+			if val != "const:false" {
+				for k := 0; k < j; k++ {
+					if ce := &p.Events[k]; ce.Kind == "cond" && ce.Cond.Atom.Kind == "bool" && ce.Cond.Atom.A == val && !ce.Cond.Truth {
+						val = "const:false" // the path reaches the write transaction under !val
+					}
+				}
+			}
 			if val != "const:false" {
 				bad++
 				c.Bad(rule, fnSendOnce+"/rawread-in-write-txn", fmt.Sprintf("the snapshot transaction is started with %s while its body switches txn.RawRead to %s: mainToShadow's IterUpdate then holds keys that alias pages it rewrites (deletion markers are stored under garbage keys)", e.Callee, val), c.pathPos(p), describe(c, p))
